@@ -399,7 +399,8 @@ def run_harness(h, scratch, logdir, playback=False):
     template = os.path.join(scratch, "t", "_template")
     if os.path.isdir(template) and not os.path.exists(tdir):
         subprocess.call(["cp", "-a", template, tdir])
-    rc, timed_out, wall = run_proc(cmd, scratch, h.timeout + 120, h.mem, logpath)
+    # trace generation for concrete playback needs noticeably more memory
+    rc, timed_out, wall = run_proc(cmd, scratch, h.timeout + 120, h.mem * 2 + 4 if playback else h.mem, logpath)
     text = open(logpath, errors="replace").read()
     shutil.rmtree(tdir, ignore_errors=True)
     res = parse_kani_log(text)
